@@ -26,6 +26,7 @@ import (
 
 	"verif/internal/ev"
 	"verif/internal/fc"
+	"verif/internal/g"
 )
 
 func TestMain(m *testing.M) { ev.Main(m) }
@@ -238,7 +239,12 @@ func TestFaultReturns(t *testing.T) {
 		c := drawRender(t, sink, maxN, ev.Pick(20, 32), ev.Pick(48, 96))
 		drawHost(t, &c)
 		fault := rapid.SampledFrom([]string{"fsize", "fsize", "fsize", "dev-full", "fsize", "fsize", "fsize",
-			"dev-full", "missing-dir", "is-dir", "ro-dir"}).Draw(t, "fault")
+			"dev-full", "missing-dir", "is-dir", "ro-dir", "fsize", "fsize", "dev-full", "empty-path", "dangling-symlink", "under-a-file"}).Draw(t, "fault")
+		if g.OneIn(t, "idle-then-again", 400) {
+			// the process idles for several seconds between two renders of the case (rare: it costs the pause)
+			c.PauseMs = rapid.SampledFrom([]int{6500, 2500, 11000}).Draw(t, "pause-ms")
+			rec.Label(fmt.Sprintf("idle-then-again:%dms", c.PauseMs))
+		}
 		c.Fault = fault
 		var S, L int64 = -1, -1
 		switch fault {
@@ -247,6 +253,16 @@ func TestFaultReturns(t *testing.T) {
 		case "is-dir":
 			c.Path = filepath.Join(dir, "adir"+ext(sink))
 			os.Mkdir(c.Path, 0o755)
+		case "empty-path":
+			c.Path = ""
+		case "dangling-symlink":
+			// the output name exists as a link into a directory that does not
+			c.Path = filepath.Join(dir, "link"+ext(sink))
+			os.Symlink(filepath.Join(dir, "gone", "target"+ext(sink)), c.Path)
+		case "under-a-file":
+			// a path component is a regular file
+			os.WriteFile(filepath.Join(dir, "plain"), []byte("x"), 0o644)
+			c.Path = filepath.Join(dir, "plain", "out"+ext(sink))
 		case "ro-dir":
 			ro := filepath.Join(dir, "ro")
 			os.Mkdir(ro, 0o755)
@@ -294,7 +310,7 @@ func TestFaultReturns(t *testing.T) {
 			after = fi.Size()
 		}
 		switch fault {
-		case "missing-dir", "is-dir":
+		case "missing-dir", "is-dir", "empty-path", "dangling-symlink", "under-a-file":
 			fired = "yes"
 		case "ro-dir":
 			fired = "yes"
@@ -693,7 +709,7 @@ func TestRegress(t *testing.T) {
 	dir := t.TempDir()
 	// relative paths are resolved in this run's temp directory (so that a replay file stays valid)
 	resolve := func(c fc.Case) fc.Case {
-		if !filepath.IsAbs(c.Path) {
+		if c.Path != "" && !filepath.IsAbs(c.Path) {
 			c.Path = filepath.Join(dir, c.Path)
 		}
 		return c
@@ -727,6 +743,11 @@ func TestRegress(t *testing.T) {
 		{"stl-mcu-sphere-20-gomaxprocs1", fc.Case{Sink: "stl", Renderer: "mcu", Shape: "sphere", Cells: 20, Path: "procs1.stl", Fsize: -1, Fault: "none", Procs: 1}, 60},
 		{"3mf-mcu-box-70-two-cpus", fc.Case{Sink: "3mf", Renderer: "mcu", Shape: "box", Cells: 70, Path: "two-cpus.3mf", Fsize: -1, Fault: "none", CPUs: 2}, 60},
 		{"stl-mcu-sphere-devfull-one-cpu", fc.Case{Sink: "stl", Renderer: "mcu", Shape: "sphere", Cells: 16, Path: "/dev/full", Fsize: -1, Fault: "dev-full", CPUs: 1, Procs: 1}, 60},
+		// a program that renders, idles for seconds and renders again (worker pools must still be there)
+		{"stl-mcu-sphere-20-idle-6.5s-again", fc.Case{Sink: "stl", Renderer: "mcu", Shape: "sphere", Cells: 20, Path: "idle.stl", Fsize: -1, Fault: "none", PauseMs: 6500}, 90},
+		// create failures that making the directory would not cure
+		{"stl-empty-path", fc.Case{Sink: "stl", Renderer: "scripted", N: 300, Chunk: 1, Path: "", Fsize: -1, Fault: "empty-path"}, 60},
+		{"stl-under-proc", fc.Case{Sink: "stl", Renderer: "mco", Shape: "sphere", Cells: 12, Path: "/proc/nope/a.stl", Fsize: -1, Fault: "missing-dir"}, 60},
 		{"3mf-fsize0", fc.Case{Sink: "3mf", Renderer: "scripted", N: 300, Chunk: 1, Path: "a.3mf", Fsize: 0, Fault: "fsize:0"}, 60},
 		{"dxf-fsize4096", fc.Case{Sink: "dxf", Renderer: "scripted", N: 300, Chunk: 1, Path: "a.dxf", Fsize: 4096, Fault: "fsize:flush-boundary+-1"}, 60},
 	}
